@@ -3640,6 +3640,151 @@ def r18_collect_loops(run):
     v.flush()
 
 
+# ---------------------------------------------------------------------------
+# R19 the one-shot iteration guard belongs to __aiter__ alone (who-may-use;
+# added after seeded change s9-c14-1: `pipe` iterated `self` instead of the
+# internal generator)
+# ---------------------------------------------------------------------------
+# `async for chunk in reader` is the one operation of the async reader that is
+# one-shot: __aiter__ tests a flag, raises when it is set, and sets it.  Every
+# other operation (pipe, exhaust, read, readall, read_until, pipe_until, peek)
+# must be repeatable and must work after a (partial) iteration - the flat
+# cursor has no such state.  So: (a) the flag is read / set only by __aiter__
+# (the constructor clears it); (b) no other method of the reader iterates the
+# reader itself (`async for ... in self`, an async comprehension over `self`,
+# `self.__aiter__`, `aiter(self)`, `self` handed to a method of the reader that
+# iterates that parameter) - internal consumers use the internal generators.
+
+_R19_RW = ('r = BufferedReader(source); await r.exhaust(); await r.exhaust() -> OperationNotAllowed (the cursor: a no-op at the end); '
+           '`async for c in r: break` then `await r.pipe(dst)` raises instead of delivering the rest')
+_R19_SELF_OK = ('type', 'isinstance', 'super', 'id', 'repr', 'str', 'hash', 'getattr', 'setattr', 'hasattr')     # builtins that do not iterate their argument
+
+
+def _one_shot_guards(rd, f):
+    """self attributes that __aiter__ both tests in front of a `raise` and stores: the one-shot guard."""
+    stored = set()
+    for n in ast.walk(f.node):
+        if isinstance(n, ast.Attribute) and isinstance(n.ctx, ast.Store) and dotted(n) and dotted(n).startswith('self.'):
+            stored.add(dotted(n))
+    out = []
+    for n in ast.walk(f.node):
+        if isinstance(n, ast.If) and any(isinstance(s, ast.Raise) for s in n.body + n.orelse):
+            for x in ast.walk(n.test):
+                if isinstance(x, ast.Attribute) and dotted(x) in stored and dotted(x) not in out:
+                    out.append(dotted(x))
+    return out
+
+
+def _iterated_names(f):
+    """names an (async) loop / comprehension / aiter() / .__aiter__ of `f` iterates over."""
+    out = {}
+    for n in ast.walk(f.node):
+        its = []
+        if isinstance(n, (ast.AsyncFor, ast.For)):
+            its.append(n.iter)
+        elif isinstance(n, ast.comprehension):
+            its.append(n.iter)
+        elif isinstance(n, ast.Call) and isinstance(n.func, ast.Name) and n.func.id in ('aiter', 'iter', 'anext', 'next') and n.args:
+            its.append(n.args[0])
+        elif isinstance(n, ast.Attribute) and n.attr in ('__aiter__', '__iter__', '__anext__', '__next__'):
+            its.append(n.value)
+        elif isinstance(n, (ast.YieldFrom,)):
+            its.append(n.value)
+        for e in its:
+            if isinstance(e, ast.Name):
+                out.setdefault(e.id, n)
+    return out
+
+
+def r19_one_shot_guard(run):
+    """The one-shot iteration guard of the async reader is used by __aiter__ only, and no other method iterates `self`.
+    Runtime witness: exhaust(); exhaust() raises OperationNotAllowed where the flat cursor does nothing."""
+    p = run.project
+    rd = Reader(p, ASYNC)
+    it = rd.methods.get('__aiter__')
+    if it is None:
+        raise AnchorError('%s.__aiter__ not found' % ASYNC)
+    run.use(it)
+    guards = _one_shot_guards(rd, it)
+    if not guards:
+        raise AnchorError('%s.__aiter__: no one-shot guard (a self attribute tested in front of a raise and set) found' % ASYNC)
+    run.sample({'rule': 'R19', 'one-shot guard of __aiter__': guards})
+    n_consumers = 0
+    for name, f in sorted(rd.methods.items()):
+        if f is it:
+            continue
+        # (a) the guard
+        for n in ast.walk(f.node):
+            if not (isinstance(n, ast.Attribute) and dotted(n) in guards):
+                continue
+            run.use(f)
+            if name == '__init__':
+                st = [a for a in ast.walk(f.node) if isinstance(a, (ast.Assign, ast.AnnAssign)) and a.value is not None
+                      and any(t is n for t in (a.targets if isinstance(a, ast.Assign) else [a.target]))]
+                if st and isinstance(st[0].value, ast.Constant) and st[0].value.value is False:
+                    run.ok('async reader: the constructor clears the one-shot iteration guard %s' % dotted(n), f.loc(st[0]), short(st[0]))
+                    continue
+                raise UnknownIdiom('%s: %s is used in the constructor other than by being cleared' % (f.qual, dotted(n)))
+            if isinstance(n.ctx, ast.Store):
+                st = [a for a in ast.walk(f.node) if isinstance(a, ast.Assign) and any(t is n for t in a.targets)]
+                if st and isinstance(st[0].value, ast.Constant) and st[0].value.value is False:
+                    raise UnknownIdiom('%s: the one-shot iteration guard is cleared outside the constructor (`%s`)' % (f.qual, short(st[0])))
+            run.fail('async reader: the one-shot iteration guard %s is tested / set by __aiter__ only: %s() is repeatable and works after an '
+                     'iteration was started' % (dotted(n), name), f, '%s %s' % ('sets' if isinstance(n.ctx, ast.Store) else 'reads', dotted(n)),
+                     where=f.loc(n), runtime_witness=_R19_RW)
+        # (b) iteration of the reader itself
+        sites = []
+        for n in ast.walk(f.node):
+            if isinstance(n, (ast.AsyncFor, ast.For)) and dotted(n.iter) == 'self':
+                sites.append((n, '%s ... in self' % ('async for' if isinstance(n, ast.AsyncFor) else 'for')))
+            elif isinstance(n, ast.comprehension) and dotted(n.iter) == 'self':
+                sites.append((n.iter, '%s ... in self (comprehension)' % ('async for' if n.is_async else 'for')))
+            elif isinstance(n, ast.Attribute) and n.attr in ('__aiter__', '__anext__') and dotted(n.value) == 'self':
+                sites.append((n, 'self.%s' % n.attr))
+            elif isinstance(n, ast.Call):
+                args = list(n.args) + [k.value for k in n.keywords]
+                if not any(dotted(a) == 'self' or (isinstance(a, ast.Starred) and dotted(a.value) == 'self') for a in args):
+                    continue
+                if isinstance(n.func, ast.Name) and n.func.id in ('aiter', 'anext'):
+                    sites.append((n, '%s(self)' % n.func.id))
+                    continue
+                if isinstance(n.func, ast.Name) and n.func.id in _R19_SELF_OK and n.func.id not in f.params():
+                    continue
+                callee = p.callee(f, n)
+                if isinstance(callee, Func) and callee.cls is not None and callee.cls.qual == rd.qual and isinstance(n.func, ast.Attribute) \
+                        and dotted(n.func.value) == 'self':
+                    try:
+                        bound = _bind_call(callee, n)
+                    except UnknownIdiom:
+                        bound = None
+                    if bound is None:
+                        raise UnknownIdiom('%s: `self` is handed to %s in a way the rule does not read' % (f.qual, short(n, 60)))
+                    ps = [k for k, a in bound.items() if isinstance(a, ast.AST) and dotted(a) == 'self']
+                    iterated = _iterated_names(callee)
+                    hit = [k for k in ps if k in iterated]
+                    if hit:
+                        sites.append((n, 'self handed to %s(), which iterates its parameter `%s`' % (callee.name, hit[0])))
+                        continue
+                    if any(isinstance(x, ast.Name) and x.id in ps for c2 in ast.walk(callee.node) if isinstance(c2, ast.Call)
+                           for x in list(c2.args) + [k.value for k in c2.keywords]):
+                        raise UnknownIdiom('%s: `self` is handed to %s(), which passes it on' % (f.qual, callee.name))
+                    continue
+                raise UnknownIdiom('%s: `self` escapes into `%s`' % (f.qual, short(n, 60)))
+        loops = [n for n in ast.walk(f.node) if isinstance(n, (ast.AsyncFor,)) or (isinstance(n, ast.comprehension) and n.is_async)]
+        for n, how in sites:
+            run.use(f)
+            run.fail('async reader: %s() does not iterate the reader itself (__aiter__ is one-shot: it raises once an iteration was started); internal '
+                     'consumers draw from the internal generators' % name, f, how, where=f.loc(n), runtime_witness=_R19_RW)
+        if loops and not sites:
+            run.use(f)
+            n_consumers += 1
+            run.ok('async reader: %s() draws from %s, never from the reader\'s own one-shot __aiter__' % (
+                name, ', '.join(sorted({short(n.iter, 40) for n in loops}))), f.loc(), '%s: async iteration sources' % name)
+    if n_consumers < 3:
+        raise AnchorError('%s: fewer than 3 methods with an async loop found' % ASYNC)
+    run.extra['c14_async_consumers'] = n_consumers
+
+
 def check(run):
     run.assume('C14: only falcon/util/reader.py and falcon/asgi/reader.py are decided; falcon/cyutil/reader.pyx (the compiled twin) is not analysed')
     run.extra['twin_drift_note'] = 'falcon/cyutil/reader.pyx is a hand-maintained Cython twin of falcon/util/reader.py; not parsed, not compared'
@@ -3666,3 +3811,5 @@ def check(run):
              'arithmetic (type partition; reader callees followed)', floor=6)
     run.rule('R18', r18_collect_loops, 'both readers: collecting loops are left only when the countdown is used up / the source is dry / the piece is empty; running totals '
              'equal what was collected; a non-empty backlog is part of the result', floor=6)
+    run.rule('R19', r19_one_shot_guard, 'async reader: the one-shot iteration guard is tested / set by __aiter__ only and no other method iterates the reader itself '
+             '(pipe / exhaust / read* are repeatable and work after an iteration was started)', floor=6)
